@@ -53,3 +53,9 @@ package app
 //@   at call Silencer).Mutes assert [same-alert] arg2 == labels
 //@   at call Inhibitor).Mutes assert [same-alert-inhibitor] arg2 == labels
 //@   noeffect Inhibitor).Mutes Silencer).Mutes
+// every route of the new tree marks its receiver as in use (so its integrations get built)
+//@ func (*reloader).reload$1
+//@   props C17 C07
+//@   requires rt != nil && activeReceivers != nil && deref(activeReceivers) != nil
+//@   ensures [receiver-marked] rt.RouteOpts.Receiver in deref(activeReceivers)
+//@   ensures [others-kept] forall k string :: old(k in deref(activeReceivers)) ==> (k in deref(activeReceivers))
